@@ -16,3 +16,8 @@ func verifSeekCloseTwice(r *readSeekCloserWithCloseHook) {
 	_ = r.Close()
 	_ = r.Close()
 }
+
+// specHookDone: the close hook of this reader has already been run (abstract view of the reader's state).
+func specHookDone(r *readCloserWithCloseHook) bool { return r.hookCalled != 0 }
+
+func specSeekHookDone(r *readSeekCloserWithCloseHook) bool { return r.hookCalled != 0 }
